@@ -244,7 +244,16 @@ def check_int_division(rep, prog, keys):
             node = [m for m in F.g.nodes if m.line == x['l'] and m.stmt is not None]
             ok = False
             why = ['divisor `%s` is not tested against zero on the way to line %d' % (div, x['l'])]
-            if name and node:
+            # a const variable initialised with a non-zero literal is a named constant, not a run-time divisor
+            if dn.get('k') == 'Ref' and dn.get('const') and dn.get('dk') in ('global', 'static_member', 'static_local', 'local'):
+                cv = [v for (q_, i_), v in prog.statics.items() if i_ == dn.get('id')]
+                if not cv:
+                    cv = [v for d_ in astu.walk(fn['body']) if d_['k'] == 'Decl' for v in d_['vars'] if v.get('id') == dn.get('id')]
+                val = astu.num_value(astu.strip_casts(cv[0].get('init'))) if cv and cv[0].get('init') else None
+                if val is not None and val != 0:
+                    ok = True
+                    why = None
+            if not ok and name and node:
                 tests = [b for b in F.nodes(kind='branch') if cppflow.mentions(b.stmt[1], name)
                          and F.dominates(b, node[0]) and b.id != node[0].id]
                 defs = [m for m in F.nodes(kind='assign') if m.stmt[1] == ('var', name)]
